@@ -504,3 +504,14 @@ def tx_scenarios():
     return {"valid": A["pack.blobs"]["data"], "thin": A["pack.thin"]["data"], "dup": dup,
             "badtree": A["pack.badtree"]["data"], "cut-trailer": A["pack.blobs"]["data"][:-5],
             "unresolved": build_attack_pack({"e": [(0, 0), (2, 4)], "hdr": 0, "tr": 1, "szat": 0, "szdir": 0})[0]}
+
+
+def idx_names(d: bytes):
+    """hex names listed by a pack index (v1 / v2 / v3 with SHA-1), independent minimal parser"""
+    if d[:4] == b"\377tOc":
+        version = struct.unpack(">L", d[4:8])[0]
+        base = 8 + 1024 if version == 2 else 8 + 8 + 1024
+        n = struct.unpack(">L", d[base - 4:base])[0]
+        return [d[base + 20 * i:base + 20 * i + 20].hex() for i in range(n)]
+    n = struct.unpack(">L", d[1020:1024])[0]
+    return [d[1024 + 24 * i + 4:1024 + 24 * i + 24].hex() for i in range(n)]
